@@ -568,6 +568,11 @@ class Evaluator:
             return self.typeof(t[1])
         if h == "slice":
             return self.typeof(t[1])
+        if h == "call" and t[1] == "next" and len(t) >= 3 and len(t[2]) == 2 and is_term(t[2][0]) and t[2][0][0] == "comp" and t[2][1] == NONE:
+            # next((x for x in S if c), None): an element of the generator, or None -- a use behind an `is None` test is an element
+            et = self.elem_type(t[2][0])
+            if et is not None:
+                return ("union", (et, "none")) if not (isinstance(et, tuple) and et and et[0] == "union") else et
         if h == "comp":
             if t[1] == "dict":
                 return ("dict", None, None)
@@ -3238,7 +3243,12 @@ class Evaluator:
                 else:
                     outs.append((s, p.value))
             return outs
-        paths = self.run(f, b, self_term if needs_self else None)
+        ctx = self.__dict__.setdefault("_ctx_conds", [])
+        ctx.append(state.conds)  # what the caller's path has established is still true inside the callee
+        try:
+            paths = self.run(f, b, self_term if needs_self else None)
+        finally:
+            ctx.pop()
         outs = []
         actual_names = self._actual_names(f, call_ast, needs_self) if call_ast is not None else {}
         for p in paths:
@@ -3604,7 +3614,7 @@ class Evaluator:
                     return [(state, ("listlit", (("ite", c, x1, x0), ("ite", c, x0, x1))))]
             return [(state, ("call", name, tuple(args), tuple(sorted(kwargs.items()))))]
         if name == "isinstance" and len(args) == 2:
-            return [(state, self.isinstance_term(args[0], args[1]))]
+            return [(state, self.isinstance_term(args[0], args[1], conds=tuple(state.conds) + tuple(c_ for cs_ in self.__dict__.get('_ctx_conds', ()) for c_ in cs_)))]
         if name in ("any", "all") and len(args) == 1:
             items = self._literal_items(args[0])
             if items is not None:
@@ -3725,15 +3735,19 @@ class Evaluator:
             return [(state, NONE)]
         return [(state, ("call", name, tuple(args), tuple(sorted(kwargs.items()))))]
 
-    def isinstance_term(self, x: Term, spec: Term) -> Term:
+    def isinstance_term(self, x: Term, spec: Term, conds: tuple = ()) -> Term:
         names = self._class_names(spec)
         if names is None:
             return ("isinstance", x, spec)
         if x[0] == "peel" and set(names) <= set(x[2]):
             return FALSE  # what is left after `while isinstance(x, C): x = x.attr` is not a C
         typ = self.typeof(x)
+        if isinstance(typ, tuple) and typ and typ[0] == "union" and "none" in typ[1] and any(c == ("not", ("isnone", x)) for c in conds):
+            # the path has tested `x is not None`: None is no longer one of the alternatives
+            rest_ = tuple(p for p in typ[1] if p != "none")
+            typ = rest_[0] if len(rest_) == 1 else ("union", rest_)
         verdict = self._isinstance_by_type(typ, names)
-        if x in self.declared:
+        if x in self.declared and not (x[0] == "call" and x[1] == "next"):  # (an element drawn from a typed collection is typed by the collection)
             verdict = None
         if verdict is True:
             return TRUE
